@@ -20,11 +20,11 @@ pub fn check_cuts(d: &Decoded, b: usize, iv: usize) -> Check<(u64, u64)> {
     // last block (highest offset) per depth
     let mut last_of_depth = vec![0u64; levels + 2];
     for bl in &d.blocks {
-        let dp = bl.depth.unwrap();
+        let Some(dp) = bl.depth else { continue };
         last_of_depth[dp] = last_of_depth[dp].max(bl.offset);
     }
     for bl in &d.blocks {
-        let dp = bl.depth.unwrap();
+        let Some(dp) = bl.depth else { continue };
         let is_data = dp == levels + 1;
         if !(is_data || dp >= 2) || bl.entries.is_empty() {
             continue;
